@@ -41,13 +41,15 @@ fn profile_settings(p: usize) -> String {
         2 => ("ed25519", true, true),
         _ => ("es384", true, false),
     };
+    // profile 3 asks for trust verification but configures no anchors (=> untrusted credential)
+    let anchors = trust && p % N_PROFILES != 3;
     let mut v = json!({
         "verify": {"verify_trust": trust},
         "builder": {"thumbnail": {"enabled": false}, "claim_generator_info": {"name": format!("verif-profile-{}", p % N_PROFILES), "version": "1"}},
         "core": {"prefer_compress_manifests": compress},
         "signer": {"local": {"alg": alg, "sign_cert": String::from_utf8_lossy(&signers::cert_pem(alg)), "private_key": String::from_utf8_lossy(&signers::key_pem(alg))}}
     });
-    if trust {
+    if anchors {
         v["trust"] = json!({"trust_anchors": signers::trust_anchors_pem()});
     }
     v.to_string()
@@ -145,7 +147,7 @@ fn build_settings(variant: usize) -> c2pa::Result<Value> {
         1 => Settings::new().with_toml("[core]\nmerkle_tree_chunk_size_in_kb = 64\n[builder.thumbnail]\nenabled = false\n")?,
         2 => Settings::new().with_value("core.merkle_tree_max_proofs", 3)?.with_value("verify.remote_manifest_fetch", false)?.with_value("builder.thumbnail.long_edge", 77)?,
         _ => {
-            let mut s = Settings::new().with_json(r#"{"trust": {"allowed_list": "x"}}"#)?;
+            let mut s = Settings::new().with_json(r#"{"verify": {"skip_ingredient_conflict_resolution": true, "strict_v1_validation": true}}"#)?;
             s.set_value("verify.ocsp_fetch", true)?;
             s.update_from_str(r#"{"core": {"prefer_compress_manifests": true}}"#, "json")?;
             s
@@ -176,7 +178,10 @@ fn exec(op: &OpK, ctx: &Arc<Context>, inp: &Inputs) -> Result<String, String> {
             let m = b.save_to_stream(a.format, &mut src, &mut dst)?;
             let out = dst.into_inner();
             let o = report::read_bytes(readback_ctx(), a.format, &out);
-            Ok(json!({"out_len": out.len(), "manifest_len": m.len(), "readback": outcome_json(&o)}))
+            // compressed (brotli) manifests contain fresh UUIDs, so their length is not reproducible
+            let compressed = ctx.settings().get_value::<bool>("core.prefer_compress_manifests").unwrap_or(false);
+            let lens = if compressed { json!(null) } else { json!([out.len(), m.len()]) };
+            Ok(json!({"lens": lens, "readback": outcome_json(&o)}))
         }
         OpK::Read(i) => {
             let a = &inp.signed[*i % inp.signed.len()];
@@ -647,8 +652,9 @@ fn main() {
             run.count("sequential_reference_not_deterministic", 1);
             println!("NOTE: property=C24 sequential reference of {k} is not reproducible; unjudged");
         } else {
-            if a.is_err() {
+            if let Err(e) = &a {
                 run.count(&format!("sequential_reference_err:{}", op.name()), 1);
+                println!("NOTE: property=C24 sequential reference of {k} is an error: {e}");
             }
             run.sample("sequential-reference", 2, json!({"key": k, "result": a.as_ref().map(|s| s.chars().take(300).collect::<String>())}));
             expected.insert(k.clone(), a);
